@@ -463,10 +463,10 @@ func lifeStreams(g *vlib.Rng) {
 	for _, l := range lifeCorpus(g) {
 		runLife(l)
 	}
-	for i := 0; i < r.N(120, 2500); i++ {
+	for i := 0; i < r.N(120, 1500); i++ {
 		runLife(genLife(g))
 	}
-	for i := 0; i < r.N(40, 800); i++ {
+	for i := 0; i < r.N(40, 500); i++ {
 		runLifeM(genLifeM(g))
 	}
 }
